@@ -35,7 +35,7 @@ man = {
     ],
     "checks": checks,
     "not_applicable": na,
-    "notes": "Every check = (1) Coq build + Print Assumptions of the property theorems, (2) correspondence of the Gallina model with /repo's current tree, (3) exact-oracle search for a failing input, (4) known findings. See DESIGN.md.",
+    "notes": "Every check = (1) Coq build + Print Assumptions of the property theorems, (2) correspondence of the Gallina model with /repo's current tree, (3) exact-oracle search for a failing input, (4) known findings, (5) for the numerical core: regeneration of the Python-to-Gallina translation of the current source and comparison with the committed translation the tie theorems are about (a changed translation triggers the search and a NOTE; VERIF_STRICT_TIE=1 makes it a violation). See DESIGN.md sections 0 and 12.",
 }
 json.dump(man, open(os.path.join(VERIF, "MANIFEST.json"), "w"), indent=1)
 print("checks:", [c["property_id"] for c in checks], "n/a:", len(na))
